@@ -318,13 +318,15 @@ class SyndromeLookupDecoder(BaseBlockDecoder[LinearBlockCodeEncoder]):
 
         # For tensors with leading dimensions, process blockwise
         def decode_block(r_block):
-            batch_size = r_block.shape[0]
-            decoded = torch.zeros(batch_size, self.code_dimension, dtype=received.dtype, device=received.device)
-            errors = torch.zeros_like(r_block)
+            # r_block has shape (..., blocks, n): decode every length-n word on its own, whatever
+            # the leading batch dimensions and the number of blocks per row
+            words = r_block.reshape(-1, self.code_length)
+            decoded = torch.zeros(words.shape[0], self.code_dimension, dtype=received.dtype, device=received.device)
+            errors = torch.zeros_like(words)
 
-            for i in range(batch_size):
+            for i in range(words.shape[0]):
                 # Get the current received word
-                r = r_block[i]
+                r = words[i]
 
                 # Calculate syndrome
                 syndrome = self.encoder.calculate_syndrome(r)
@@ -340,28 +342,11 @@ class SyndromeLookupDecoder(BaseBlockDecoder[LinearBlockCodeEncoder]):
                 # Extract message bits
                 decoded[i] = self.encoder.extract_message(corrected)
 
+            decoded = decoded.reshape(*r_block.shape[:-1], self.code_dimension)
+            errors = errors.reshape(r_block.shape)
             return (decoded, errors) if return_errors else decoded
 
-        # Apply decoding blockwise
+        # Apply decoding blockwise (for a tuple result every part is flattened back to (..., -1))
         result = apply_blockwise(received, self.code_length, decode_block)
-
-        # If we're returning errors and handling multi-block tensors
-        # apply_blockwise will return a tuple that we need to handle specially
-        if return_errors and L > self.code_length:
-            decoded_parts = []
-            error_parts = []
-
-            # Handle batch dimension cases
-            *_, blocks, _ = received.shape
-            for i in range(blocks):
-                decoded, errors = result[:, i]
-                decoded_parts.append(decoded)
-                error_parts.append(errors)
-
-            # Stack the parts along the appropriate dimension
-            decoded_tensor = torch.cat(decoded_parts, dim=-1)
-            error_tensor = torch.cat(error_parts, dim=-1)
-
-            return decoded_tensor, error_tensor
 
         return result
